@@ -105,6 +105,24 @@ class ServerWire:
         return out
 
 
+def teardown_violations(op, line):
+    """C14 at the end of a scenario: the tunnel has ended, every handler / caller was released and told to return."""
+    m = re.match(r"left=(\d+),(\d+),(\d+) table=\[(.*?)\]$", line)
+    if not m:
+        return []
+    a, b, c, tbl = int(m.group(1)), int(m.group(2)), int(m.group(3)), m.group(4)
+    side = "server" if op.startswith("s.") else "client"
+    names = ("handler", "stream-context watcher", "one-Send") if side == "server" else ("receive-loop", "stream-context watcher", "one-Send")
+    v = []
+    for n, what in zip((a, b, c), names):
+        if n:
+            v.append(("C14", "goroutine-left-after-tunnel-end", f"{side}: {n} {what} goroutine(s) started by the library are still alive after the "
+                                                                f"tunnel ended and everything was released"))
+    if tbl:
+        v.append(("C14", "table-entry-left-after-tunnel-end", f"{side}: stream table still holds [{tbl}] after the tunnel ended"))
+    return v
+
+
 class SWorldMonitor:
     """Properties observable in the S-world (real server, raw client)."""
 
@@ -131,6 +149,8 @@ class SWorldMonitor:
 
     def feed(self, op, obs_line):
         v = []
+        if op.startswith("s.teardown"):
+            return teardown_violations(op, obs_line)
         if op.startswith("s.init"):
             self.reset()
         o = parse_obs(obs_line)
@@ -411,6 +431,8 @@ class CWorldMonitor:
         self.prev_table = None
 
     def feed(self, op, obs_line):
+        if op.startswith("c.teardown"):
+            return teardown_violations(op, obs_line)
         v = []
         if op.startswith("c.init"):
             self.reset()
@@ -553,6 +575,13 @@ class CWorldMonitor:
                     if idx not in ("-", "CORRUPT", "mixed") and int(idx) != r["msgs"] - 1:
                         v.append(("C01", "response-order", f"stream {dsid}: caller received message {idx} as #{r['msgs']}"))
                 else:
+                    if res == "eof" and not (r.get("by_close") and r["close"][0] == 0):
+                        # end-of-stream IS the OK outcome: only the peer's OK close frame may produce it
+                        why = "the channel ended" if self.finished else "no close frame arrived"
+                        v.append(("C01", "ok-end-without-ok-close", f"stream {dsid}: RecvMsg reported a normal end of the stream although the peer "
+                                                                    f"never closed the RPC OK ({why}): a truncated stream looks complete"))
+                        if self.finished:
+                            v.append(("C04", "ok-result-after-termination", f"stream {dsid}: RecvMsg reported a normal end of the stream after the tunnel ended"))
                     # a terminal result: it never changes afterwards (C02 'completes exactly once')
                     if r["terminal"] is None:
                         r["terminal"] = res
